@@ -14,7 +14,7 @@ use serde_json::{json, Value};
 use std::cell::Cell;
 use std::time::Duration;
 
-pub const RULE: &str = "command scripts restricted to depth-limited searches: 1..6 rounds of 'position ...' / 'go depth d' (d in 1..4, pre-screened in-process under a node cap), interleaved with isready, positions from the small-position mixture incl. consecutive positions of one game (so the table, killers and history carry over and matter), optionally ucinewgame at generated points. Oracle 1 (run-to-run differential): the same script in R separate processes (each draws its own Zobrist keys and HashMap seeds; R = 3 quick / 8 thorough) gives byte-identical stdout after deleting the 'time' and 'nps' fields of info lines (depth, score, nodes, pv, bestmove and line order stay). Oracle 2 (fresh-equivalence, metamorphic): for prefix · ucinewgame · suffix the output after ucinewgame equals the output of suffix alone in a new process. Non-trivial = >=2 searches of which a later one follows an earlier one in the same game (oracle 1) / prefix contains >=1 search (oracle 2); distinct by script text.";
+pub const RULE: &str = "command scripts restricted to depth-limited searches: 1..6 rounds of 'position ...' / 'go depth d' (d in 1..4, pre-screened in-process under a node cap), interleaved with isready, positions from the small-position mixture incl. consecutive positions of one game (so the table, killers and history carry over and matter), optionally ucinewgame at generated points. Oracle 1 (run-to-run differential): the same script in R separate processes (each draws its own Zobrist keys and HashMap seeds; R = 3 quick / 8 thorough) gives byte-identical stdout after deleting the 'time' and 'nps' fields of info lines (depth, score, nodes, pv, bestmove and line order stay). Oracle 2 (fresh-equivalence, metamorphic): for prefix · ucinewgame · suffix the output after ucinewgame equals the output of suffix alone in a new process. Large searches: a few scripts from the start position (0..3 opening plies) searched to depth 6..8 (sized from a depth-5 probe to a few million nodes, i.e. hundreds of thousands of table entries), optionally followed by a second search two plies on, R concurrent runs. New-game generator: the new game revisits a position of the old one (same or one ply deeper search), or the old game is a knight-shuffle game from the start position (positions next to the start position occur 2-3 times) and the new game begins with a bare 'go depth d' on the start position ucinewgame sets up. Non-trivial = >=2 searches of which a later one follows an earlier one in the same game (oracle 1) / prefix contains >=1 search (oracle 2); distinct by script text.";
 
 thread_local! {
     static RUNS: Cell<usize> = Cell::new(3);
@@ -23,6 +23,8 @@ thread_local! {
 struct Round {
     lines: Vec<String>,
     same_game_as_previous: bool,
+    /// the position searched in this round (None: whatever the engine holds)
+    pos: Option<Pos>,
 }
 
 fn gen_rounds(s: &mut Src, n: usize) -> Vec<Round> {
@@ -83,13 +85,17 @@ fn gen_rounds(s: &mut Src, n: usize) -> Vec<Round> {
             lines.push("isready".into());
         }
         lines.push(format!("go depth {}", d));
-        base = Some((text, pos, hm));
-        rounds.push(Round { lines, same_game_as_previous: same });
+        base = Some((text, pos.clone(), hm));
+        rounds.push(Round { lines, same_game_as_previous: same, pos: Some(pos) });
     }
     rounds
 }
 
 fn run_script(lines: &[String]) -> Result<Vec<String>, Failure> {
+    run_script_t(lines, Duration::from_secs(60))
+}
+
+fn run_script_t(lines: &[String], watchdog: Duration) -> Result<Vec<String>, Failure> {
     let mut p = Proc::spawn().map_err(|e| Failure::new("harness-no-engine", json!({"error": e})))?;
     for l in lines {
         p.send(l);
@@ -100,7 +106,7 @@ fn run_script(lines: &[String]) -> Result<Vec<String>, Failure> {
     let mut out = Vec::new();
     let mut seen = 0;
     while seen < expected_ready {
-        match p.read_until("readyok", Duration::from_secs(60)) {
+        match p.read_until("readyok", watchdog) {
             Ok(ls) => {
                 out.extend(ls.iter().map(|l| normalise(l)));
                 out.push("readyok".into());
@@ -152,17 +158,65 @@ fn part_runs(bytes: &[u8], stats: &mut Stats) -> Verdict {
     Ok(())
 }
 
+/// A game from the start position in which both sides shuffle a knight out and back: the start
+/// position and its neighbours occur two or three times.  (State such a game leaves behind — the
+/// recorded history — is observable from the start position that ucinewgame sets up.)
+fn shuffle_game(s: &mut Src) -> String {
+    let a = *s.pick(&[("g1f3", "f3g1"), ("g1h3", "h3g1"), ("b1c3", "c3b1"), ("b1a3", "a3b1")]);
+    let b = *s.pick(&[("g8f6", "f6g8"), ("g8h6", "h6g8"), ("b8c6", "c6b8"), ("b8a6", "a6b8")]);
+    let cycles = 1 + s.below(3);
+    let mut mv: Vec<&str> = Vec::new();
+    for _ in 0..cycles {
+        mv.extend([a.0, b.0, a.1, b.1]);
+    }
+    let partial = s.below(4);
+    mv.extend([a.0, b.0, a.1].iter().take(partial));
+    format!("position startpos moves {}", mv.join(" "))
+}
+
 fn part_newgame(bytes: &[u8], stats: &mut Stats) -> Verdict {
     let mut s = Src::new(bytes);
-    let np = s.below(4);
-    let prefix_rounds = gen_rounds(&mut s, np);
+    let mode = s.weighted(&[35, 40, 25]);
+    let np = if mode == 0 { s.below(4) } else { 1 + s.below(3) };
+    let mut prefix_rounds = gen_rounds(&mut s, np);
+    if mode == 2 {
+        // a shuffle game from the start position is part of the prefix
+        let d = 1 + s.below(3);
+        let at = s.below(prefix_rounds.len() + 1);
+        prefix_rounds.insert(at, Round { lines: vec![shuffle_game(&mut s), format!("go depth {}", d)], same_game_as_previous: false, pos: None });
+    }
     let ns = 1 + s.below(3);
-    let suffix_rounds = gen_rounds(&mut s, ns);
+    let mut suffix_rounds = gen_rounds(&mut s, ns);
     let prefix: Vec<String> = prefix_rounds.iter().flat_map(|r| r.lines.iter().cloned()).collect();
+    let mut related = false;
+    if mode == 1 {
+        // the new game revisits a position of the old one (same command, possibly a deeper go):
+        // whatever the old game left in the table, the killers or the history counters is then
+        // consulted by the new game's search
+        let r = &prefix_rounds[s.below(prefix_rounds.len())];
+        let pos_line = r.lines.iter().find(|l| l.starts_with("position")).cloned();
+        let go_line = r.lines.iter().find(|l| l.starts_with("go")).cloned();
+        if let (Some(pl), Some(gl)) = (pos_line, go_line) {
+            let d0: u8 = gl.rsplit(' ').next().and_then(|x| x.parse().ok()).unwrap_or(1);
+            // same depth or one deeper (one deeper only where the pre-screen of the generator allows: depth <= 3)
+            let d = if d0 <= 2 && s.chance(50) { d0 + 1 } else { d0 };
+            let ok = if d == d0 {
+                true
+            } else {
+                // pre-screen the deeper search
+                r.pos.as_ref().map_or(false, |q| script::cheap_search(q, d, 150_000))
+            };
+            if ok {
+                suffix_rounds.insert(0, Round { lines: vec![pl, format!("go depth {}", d)], same_game_as_previous: false, pos: r.pos.clone() });
+                related = true;
+            }
+        }
+    }
     // sometimes the suffix starts with a go on whatever ucinewgame left (the start position)
     let mut suffix: Vec<String> = suffix_rounds.iter().flat_map(|r| r.lines.iter().cloned()).collect();
-    if s.chance(15) {
-        suffix.insert(0, format!("go depth {}", 1 + s.below(3)));
+    let bare_go = if mode == 2 { s.chance(85) } else { s.chance(15) };
+    if bare_go {
+        suffix.insert(0, format!("go depth {}", 1 + s.below(if mode == 2 { 4 } else { 3 })));
     }
     // process 1: prefix, barrier, ucinewgame, suffix
     let mut p = Proc::spawn().map_err(|e| Failure::new("harness-no-engine", json!({"error": e})))?;
@@ -209,7 +263,103 @@ fn part_newgame(bytes: &[u8], stats: &mut Stats) -> Verdict {
         stats.class("prefix_contains_a_search");
         stats.nontrivial(&(prefix.clone(), suffix.clone()));
     }
+    if related {
+        stats.class("new_game_revisits_a_position_of_the_old_game");
+    }
+    if mode == 2 {
+        stats.class("old_game_repeats_positions_next_to_the_start_position");
+    }
+    if bare_go {
+        stats.class("go_right_after_ucinewgame_without_position");
+    }
     stats.sample(|| json!({"oracle": "fresh-equivalence", "prefix": prefix, "suffix": suffix, "output_lines": fresh.len()}));
+    Ok(())
+}
+
+/// Large searches (millions of nodes, hundreds of thousands of table entries): whatever depends on
+/// how full the tables are (capacity limits, replacement, growth) only shows at this scale.
+/// The runs of one script execute concurrently.
+fn part_heavy(bytes: &[u8], stats: &mut Stats) -> Verdict {
+    use flsrc::search::Searcher;
+    let mut s = Src::new(bytes);
+    let mut p = Pos::startpos();
+    let mut text = String::from("position startpos");
+    let plies = s.below(4);
+    for i in 0..plies {
+        let legal = p.legal_moves();
+        let Some(m) = gen::choose_move(&mut s, &p, &legal) else { break };
+        text.push_str(if i == 0 { " moves " } else { " " });
+        text.push_str(&m.uci());
+        p = p.make(m);
+    }
+    if p.legal_moves().is_empty() {
+        stats.exclude("terminal root");
+        return Ok(());
+    }
+    // size the search from a depth-5 probe: aim at a few million nodes
+    let b = crate::eng::to_board(&p);
+    let mut probe = Searcher::new();
+    probe.verif_set_hard_cap(Some(3_000_000));
+    if std::panic::catch_unwind(std::panic::AssertUnwindSafe(|| probe.find_best_move(&b, 5, None))).is_err() {
+        stats.exclude("depth-5 probe over the node watchdog");
+        return Ok(());
+    }
+    let n5 = probe.verif_nodes();
+    let depth = if n5 < 40_000 { 8 } else if n5 < 250_000 { 7 } else { 6 };
+    let mut lines = vec![text.clone(), format!("go depth {}", depth)];
+    if s.chance(50) {
+        // the game goes on: a second search on a full table
+        let mut t = text.clone();
+        let mut q = p.clone();
+        let mut has_moves = plies > 0;
+        for _ in 0..2 {
+            let legal = q.legal_moves();
+            let Some(m) = gen::choose_move(&mut s, &q, &legal) else { break };
+            t.push_str(if has_moves { " " } else { " moves " });
+            has_moves = true;
+            t.push_str(&m.uci());
+            q = q.make(m);
+        }
+        if !q.legal_moves().is_empty() {
+            lines.push(t);
+            lines.push(format!("go depth {}", depth - 2));
+        }
+    }
+    let runs = RUNS.with(|c| c.get()).max(2);
+    let outs: Vec<Result<Vec<String>, Failure>> = std::thread::scope(|sc| {
+        let hs: Vec<_> = (0..runs).map(|_| sc.spawn(|| run_script_t(&lines, Duration::from_secs(900)))).collect();
+        hs.into_iter().map(|h| h.join().unwrap_or_else(|_| Err(Failure::new("harness-panic", json!({}))))).collect()
+    });
+    let mut it = outs.into_iter();
+    let first = it.next().unwrap()?;
+    stats.eval();
+    for (r, o) in it.enumerate() {
+        let other = o?;
+        stats.eval();
+        if other != first {
+            let idx = first.iter().zip(other.iter()).position(|(a, b)| a != b).unwrap_or(first.len().min(other.len()));
+            return Err(Failure::new(
+                "output-differs-between-process-runs",
+                json!({"script": lines, "run": r + 1, "first_difference_at_line": idx, "run0": first.get(idx), "other": other.get(idx), "run0_output": first, "other_output": other}),
+            ));
+        }
+    }
+    let nodes: u64 = first
+        .iter()
+        .filter(|l| l.starts_with("info "))
+        .filter_map(|l| {
+            let t: Vec<&str> = l.split_whitespace().collect();
+            t.iter().position(|x| *x == "nodes").and_then(|i| t.get(i + 1)).and_then(|x| x.parse::<u64>().ok())
+        })
+        .max()
+        .unwrap_or(0);
+    stats.maximum("heavy_max_nodes_of_one_search", nodes as i64);
+    stats.class("heavy_scripts");
+    if nodes >= 1_000_000 {
+        stats.class("heavy_scripts_with_a_search_over_1M_nodes");
+        stats.nontrivial(&lines);
+    }
+    stats.sample(|| json!({"oracle": "run-to-run (large searches)", "script": lines, "largest_search_nodes": nodes, "runs": runs}));
     Ok(())
 }
 
@@ -297,6 +447,17 @@ pub fn run(tier: Tier, seed: u64, known: &Known) -> PropRun {
         run.failure = fl;
         return run;
     }
+    // few, large searches; the runs of a script are concurrent, so few worker threads
+    let part = Part { name: "heavy", cases: tier.pick(3, 48), min_len: 24, max_len: 200, max_shrink: 4, threads: tier.pick(3, 5) };
+    let (st, fl) = run_part(&part, seed, known, |b, st| {
+        RUNS.with(|c| c.set(runs.min(3)));
+        part_heavy(b, st)
+    });
+    run.stats.merge(st);
+    if fl.is_some() {
+        run.failure = fl;
+        return run;
+    }
     let part = Part { name: "inprocess", cases: tier.pick(1_500, 60_000), min_len: 24, max_len: 400, max_shrink: 200, threads: threads() };
     let (st, fl) = run_part(&part, seed, known, part_inprocess);
     run.stats.merge(st);
@@ -309,6 +470,7 @@ pub fn replay(part: &str, bytes: &[u8], _case: &Value, stats: &mut Stats) -> Ver
     match part {
         "newgame" => part_newgame(bytes, stats),
         "inprocess" => part_inprocess(bytes, stats),
+        "heavy" => part_heavy(bytes, stats),
         _ => part_runs(bytes, stats),
     }
 }
